@@ -36,11 +36,15 @@ class C15(Check):
             "extents and every element are compared by TLC with Einsum!Einstein; which_variant is recorded for the L2 order model. "
             "distinct = distinct (pattern, extents, type); all non-trivial")
     assumptions = ["small integer data: exact", "3-operand which_variant is read from the library's own cost model (triplet_flop_cost); "
-                   "4-operand variants are not modelled at L2"]
+                   "4-operand variants are not modelled at L2",
+                   "the cost model (NetworkOrder!CostVariant, checked exhaustively by MC_NetworkCost) is bound to the code through the logged which_variant of "
+                   "every 3-operand case: a disagreement is MODEL-DRIFT (reported in the notes), never a violation"]
 
     def model_checks(self, ctx):
         model_check(ctx, "MC_NetworkOrder", "MC_NetworkOrder.cfg", workers=1)
         model_check(ctx, "MC_NetworkOrder", "MC_NetworkOrder_full.cfg", workers=1, expect_violation="OrderIndependent")
+        # the transcription of the cost model (which_variant), bound to the code through the logged variant of every 3-operand case
+        model_check(ctx, "MC_NetworkCost", "MC_NetworkCost.cfg" if ctx.tier == "quick" else "MC_NetworkCost_thorough.cfg", workers=4)
 
     def configs(self, ctx):
         base = list(QUICK_CFGS) + ["avx2-17-O2", "avx2-14-O2+FASTOR_DONT_PERFORM_OP_MIN", "avx2-14-O2+FASTOR_KEEP_DP_FIXED"]
